@@ -25,6 +25,7 @@ for c in $checks; do
   echo "check $c: $out"
 done
 git -C /repo checkout -- .
+rm -f /repo/output.csv /repo/test/python_column_infos.txt /repo/test/js_column_infos.txt
 git -C /repo status --short | grep -v '^??' 
 # evidence written while a seeded change was applied must never be committed: restore the committed files
 git -C /verif checkout -- evidence 2>/dev/null
